@@ -131,8 +131,17 @@ def streamInt (s : Str) : Int :=
   | '+' :: r => streamIntUnsigned false r
   | _ => streamIntUnsigned false s
 
-/-- TextTools::toDouble (TextTools.cpp:227-232): `none` = Exception -/
+/-- the translation of the caller's characters to the stream's (TextTools.cpp:231-238) -/
+def trChar (dec sci : Char) (c : Char) : Char := if c == dec then '.' else if c == sci then 'e' else c
+
+/-- TextTools::toDouble (TextTools.cpp:227-240), after the repair "fix: TextTools::toDouble validated
+with the caller's decimal separator / exponent character but converted with a stream that only
+knows '.' and 'e'": `none` = Exception -/
 def toDouble (dec sci : Char) (s : Str) : Option Rat :=
+  if isDecimalNumber dec sci s then some (streamDouble (s.map (trChar dec sci))) else none
+
+/-- the code before that repair: the accepted text went to the stream as it was -/
+def toDoubleNoTr (dec sci : Char) (s : Str) : Option Rat :=
   if isDecimalNumber dec sci s then some (streamDouble s) else none
 
 /-- TextTools::toInt (TextTools.cpp:218-223): `none` = Exception -/
